@@ -455,3 +455,49 @@ Example C06_source_holder_io_example :
   /\ src_holder_init ph_blank (-1) = Err 1
   /\ src_holder_load_h5 shraw_empty = Err 30.
 Proof. vm_compute. repeat split; reflexivity. Qed.
+(* ================= the data.py PRIMITIVES of the scoring links are theorems =================
+   C06_SELECT / C06_SCORE_CHUNK (harness/src_functions.py) give `screen.plates`, `screen.get_plate(i)`, `p.plate_id`,
+   `p.is_observed` and `p.plate_name` the meanings [plates], [get_plate], [p_id], [is_observed], [plate_name] of Model/Scores.v.
+   These helpers are translated themselves (Generated/SrcViews.v, Generated/SrcPlates.v, equal to the models of Model/Views.v by
+   Props/C14.v); read through the representation [sc_rows] (row i of the Scores screen = the i-th plate id, mask bit, sample id
+   and treatment ids of the Views screen) / [sc_subset] (the (position, row) pairs at the positions a view selects), each
+   translation is the meaning the primitive was given.  Side conditions: [screen_wf] (every constructed screen), [view_ok]
+   (every constructed view). *)
+From Batchie Require Import Lib.PyRt Model.Encode Model.Screen Model.Views Generated.SrcViews Generated.SrcPlates
+  Proofs.C14Defs Proofs.C06SourceHelpers.
+
+(* `screen.get_plate(i)` -> [get_plate] and `screen.plates` -> [plates]: one plate per sorted distinct plate id, each the view
+   get_plate builds, whose (position, row) pairs are the model plate's rows *)
+Theorem C06_model_is_source_get_plate_plates :
+  (forall (t : Z) (p : Screen.screen) (pid : Z), screen_wf p ->
+     exists v, src_get_plate (t, p) pid = Ok v /\ sc_plate pid v = Scores.get_plate (sc_rows p) pid /\
+               v_tag v = t /\ v_parent v = p /\ view_ok v) /\
+  (forall (t : Z) (p : Screen.screen), screen_wf p ->
+     exists vs, src_plates (t, p) = Ok vs /\
+       Scores.plates (sc_rows p) = map (fun iv => sc_plate (fst iv) (snd iv)) (combine (Encode.sort_uniq Z.compare (s_pids p)) vs) /\
+       length vs = length (Encode.sort_uniq Z.compare (s_pids p)) /\
+       Forall (fun v => v_tag v = t /\ v_parent v = p /\ view_ok v) vs).
+Proof. exact (conj src_get_plate_is_scores_get_plate src_plates_is_scores_plates). Qed.
+Print Assumptions C06_model_is_source_get_plate_plates.
+
+(* `p.plate_id` -> [p_id]: the plate get_plate(pid) returns, pid a plate id of the screen, answers pid *)
+Theorem C06_model_is_source_plate_id : forall (t : Z) (p : Screen.screen) (pid : Z), screen_wf p -> In pid (s_pids p) ->
+  exists v, src_get_plate (t, p) pid = Ok v /\ src_plate_id v = Ok (Scores.p_id (Scores.get_plate (sc_rows p) pid)).
+Proof. exact src_plate_id_is_scores_p_id. Qed.
+Print Assumptions C06_model_is_source_plate_id.
+
+(* `p.is_observed` -> [is_observed]: np.all of the mask at the selected rows *)
+Theorem C06_model_is_source_is_observed : forall (pid : Z) (v : view), screen_wf (v_parent v) -> view_ok v ->
+  src_view_is_observed v = Ok (Scores.is_observed (sc_plate pid v)).
+Proof. exact src_view_is_observed_is_scores. Qed.
+Print Assumptions C06_model_is_source_is_observed.
+
+(* `p.plate_name` -> [plate_name]: the model answers the POSITION of the plate's first row; the translated property returns
+   the plate name stored at that position and raises IndexError exactly when the model refuses *)
+Theorem C06_model_is_source_plate_name : forall (pid : Z) (v : view), screen_wf (v_parent v) -> view_ok v ->
+  match Scores.plate_name (sc_plate pid v) with
+  | Ok i => src_plate_name v = Ok (nth i (map Screen.r_plate (s_rows (v_parent v))) [])
+  | Err _ => src_plate_name v = Err 98%Z
+  end.
+Proof. exact src_plate_name_is_scores_plate_name. Qed.
+Print Assumptions C06_model_is_source_plate_name.
